@@ -193,7 +193,7 @@ pub fn retry_token_native(_x: u8) -> u32 {
 /// Native replay body for the E2 query `e2_endpoint_first_initial` (C07 / C14 / C09): an Initial in a
 /// datagram shorter than 1200 bytes gets no response and leaves no state behind; a full-size one starts
 /// an attempt.
-pub fn first_initial_native(len_: u16) -> u32 {
+pub fn first_initial_native(len_: u16, dcid_len: u8) -> u32 {
     use crate::connection::verif::nullcrypto;
     let mut cfg = EndpointConfig::new(Arc::new(NullHmac));
     cfg.rng_seed(Some([7; 32]));
@@ -202,20 +202,36 @@ pub fn first_initial_native(len_: u16) -> u32 {
     let now = crate::verif::mk_instant(100, 0).unwrap();
     let remote: SocketAddr = "10.0.0.1:4433".parse().unwrap();
     let len_ = (len_ as usize).max(40);
-    let mut v = vec![0xc0u8, 0, 0, 0, 1, 8, 9, 9, 9, 9, 9, 9, 9, 9, 0, 0];
-    let rest = len_ - v.len() - 2;
+    // destination CID of `dcid_len` bytes (a client-chosen Initial DCID shorter than 8 bytes is invalid and is
+    // normally answered with a CONNECTION_CLOSE - but not when the datagram is too short to be an Initial at all)
+    let dcid_len = (dcid_len as usize).min(20);
+    let mut v = vec![0xc0u8, 0, 0, 0, 1, dcid_len as u8];
+    v.extend(core::iter::repeat(9).take(dcid_len));
+    v.extend_from_slice(&[0, 0]);
+    let hdr = v.len();
+    let rest = len_ - hdr - 2;
     v.extend_from_slice(&[0x40 | (rest >> 8) as u8, rest as u8]);
     v.resize(len_, 0);
     let mut buf = Vec::new();
     let r = ep.handle(now, remote, None, None, BytesMut::from(&v[..]), &mut buf);
+    if len_ < 1200 && dcid_len != 8 {
+        assert!(r.is_none(), "an Initial in a {}-byte datagram was answered ({} bytes)", len_, buf.len());
+        assert!(buf.is_empty() && ep.incoming_buffer_bytes() == 0 && ep.open_connections() == 0);
+        return 3;
+    }
+    if dcid_len != 8 {
+        // full-size datagram, invalid DCID length: refused (a response is fine), no state
+        assert!(!matches!(r, Some(DatagramEvent::NewConnection(_))));
+        return 4;
+    }
     if len_ < 1200 {
         assert!(r.is_none(), "an Initial in a {}-byte datagram caused a reaction", len_);
         assert!(buf.is_empty() && ep.incoming_buffer_bytes() == 0 && ep.open_connections() == 0);
         // and it left no route: a proper retransmission is a fresh attempt
         v.resize(1200, 0);
-        let rest = 1200 - 16 - 2;
-        v[16] = 0x40 | (rest >> 8) as u8;
-        v[17] = rest as u8;
+        let rest = 1200 - hdr - 2;
+        v[hdr] = 0x40 | (rest >> 8) as u8;
+        v[hdr + 1] = rest as u8;
         assert!(matches!(ep.handle(now, remote, None, None, BytesMut::from(&v[..]), &mut buf), Some(DatagramEvent::NewConnection(_))));
         2
     } else {
